@@ -58,12 +58,25 @@ def root_meta():
             "neg": -0.1}
 
 
+_SIGNALS = {}
+
+
+def component_signals(L):
+    """Three different signals with offset, trend and very different scales (cached, read-only)."""
+    if L not in _SIGNALS:
+        ramp = A.sig_array("ramp", L)
+        ns = A.sig_array("offgrid_sine", L) + 0.25 * A.sig_array("noise1", L) + 0.5 + ramp
+        ew = 1.5e3 * A.sig_array("noise2", L) - 2.0e3 * ramp
+        vt = 1e-3 * (0.7 * A.sig_array("two_sines", L) + 0.1 * A.sig_array("noise3", L) - 0.3 * ramp)
+        for a in (ns, ew, vt):
+            a.setflags(write=False)
+        _SIGNALS[L] = (ns, ew, vt)
+    return _SIGNALS[L]
+
+
 def make_recording(root):
     L, dt = root["L"], root["dt"]
-    ramp = A.sig_array("ramp", L)
-    ns = A.sig_array("offgrid_sine", L) + 0.25 * A.sig_array("noise1", L) + 0.5 + ramp
-    ew = 1.5e3 * A.sig_array("noise2", L) - 2.0e3 * ramp
-    vt = 1e-3 * (0.7 * A.sig_array("two_sines", L) + 0.1 * A.sig_array("noise3", L) - 0.3 * ramp)
+    ns, ew, vt = (np.array(a, copy=True) for a in component_signals(L))
     return SeismicRecording3C(TimeSeries(ns, dt), TimeSeries(ew, dt), TimeSeries(vt, dt),
                               degrees_from_north=root["deg"], meta=root_meta())
 
@@ -159,9 +172,22 @@ def has_tuple(x):
     return False
 
 
-def private_copy(rec):
-    """A copy made by the harness (copy.deepcopy), never by hvsrpy's copy code."""
-    return copy.deepcopy(rec)
+def private_copy(rec, deep_meta=True):
+    """A copy made by the harness, never by hvsrpy's copy code.
+
+    deep_meta=False copies the metadata dict one level deep only (enough for
+    trim, which only assigns meta["trim"]; the invariant re-checks afterwards
+    that the judged recording did not move).
+    """
+    if deep_meta:
+        return copy.deepcopy(rec)
+    new = copy.copy(rec)
+    for c in COMPONENTS:
+        ts = copy.copy(getattr(rec, c))
+        ts.amplitude = np.array(ts.amplitude, copy=True)
+        setattr(new, c, ts)
+    new.meta = dict(rec.meta)
+    return new
 
 
 def _fl(v):
@@ -176,6 +202,12 @@ class System:
         self.prefix = tuple(root.get("prefix", ()))
         self.tmpdir = tmpdir
         self.nfile = 0
+        self._outcomes = set()
+
+    def _outcome(self, ctx, x):
+        if x not in self._outcomes:
+            self._outcomes.add(x)
+            ctx.outcome(x)
 
     # ---- E1 interface -----------------------------------------------------
     def initial(self, root):
@@ -380,7 +412,7 @@ class System:
 
     def _copies(self, rec, hist, ctx, root):
         # -- SeismicRecording3C.from_seismic_recording_3c
-        src = private_copy(rec)
+        src = private_copy(rec, deep_meta=False)
         snap, deg, dt = samples(src), float(src.degrees_from_north), src.ns.dt_in_seconds
         ctx.count("transitions")
         ctx.count("copy_routes_exercised")
@@ -396,7 +428,7 @@ class System:
                 ctx.count("info_meta_nested_aliased_by_copy_constructor")
 
         # -- TimeSeries.from_timeseries, each component
-        src = private_copy(rec)
+        src = private_copy(rec, deep_meta=False)
         for c in COMPONENTS:
             ts = getattr(src, c)
             s0 = np.array(ts.amplitude, copy=True)
@@ -417,7 +449,7 @@ class System:
                               extra=dict(component=c))
 
         # -- components handed to the constructor
-        src = private_copy(rec)
+        src = private_copy(rec, deep_meta=False)
         given = [src.ns, src.ew, src.vt]
         snap, deg, dt = samples(src), float(src.degrees_from_north), src.ns.dt_in_seconds
         ctx.count("transitions")
@@ -441,7 +473,7 @@ class System:
         # -- split products
         n, dt = rec.ns.n_samples, rec.ns.dt_in_seconds
         for w in sorted({self._split_length(n, dt), float(max(1, (n - 1) // 2) * dt)}):
-            src = private_copy(rec)
+            src = private_copy(rec, deep_meta=False)
             snap = samples(src)
             ctx.count("transitions")
             try:
@@ -453,14 +485,25 @@ class System:
             ctx.count("copy_routes_exercised")
             ctx.count("split_products_checked", len(prods))
             ctx.outcome(("split", len(prods), prods[0].ns.n_samples if prods else 0))
-            for c, s in zip(COMPONENTS, snap):
-                if not bitwise_equal(getattr(src, c).amplitude, s):
-                    ctx.violation("C18:split:changes-source", root, detail=dict(hist=hist, w=w, component=c),
-                                  explanation="split() changed the samples of the recording it was called on")
+            if not all(bitwise_equal(getattr(src, c).amplitude, s) for c, s in zip(COMPONENTS, snap)):
+                ctx.count("info_split_changed_source_samples")      # not part of the statement
             pairs = []
             for k, p in enumerate(prods):
                 pairs += self._all_pairs(src, p, tag=f"window[{k}] ")
             self._independent(ctx, root, "split", hist, pairs, extra=dict(window_length=w))
+            # the component-level split used by it is a splitting route of its own
+            ts = copy.deepcopy(rec.vt)
+            ctx.count("transitions")
+            try:
+                tprods = ts.split(w)
+            except Exception:           # noqa: BLE001
+                ctx.count("split_refused")
+                continue
+            ctx.count("copy_routes_exercised")
+            ctx.count("split_products_checked", len(tprods))
+            self._independent(ctx, root, "TimeSeries.split", hist,
+                              [(f"source / window[{k}]", (lambda o=ts: o.amplitude), (lambda o=p: o.amplitude))
+                               for k, p in enumerate(tprods)], extra=dict(window_length=w))
 
     # (3) trim -----------------------------------------------------------------
     def _trims(self, rec, hist, ctx, root):
@@ -468,8 +511,9 @@ class System:
         for label, a, b in intervals(n, dt):
             exp = RT.expected(n, dt, a, b)
             self._trim_one(ctx, root, hist, "SeismicRecording3C.trim", label, a, b, exp,
-                           private_copy(rec), COMPONENTS)
-            ts = copy.deepcopy(rec.ns)
+                           private_copy(rec, deep_meta=False), COMPONENTS)
+            ts = copy.copy(rec.ns)
+            ts.amplitude = np.array(ts.amplitude, copy=True)
             self._trim_one(ctx, root, hist, "TimeSeries.trim", label, a, b, exp, ts, (None,))
             # non-vacuity: truncating instead of rounding would give other samples
             if exp["refuse"] is False and not exp["knife"]:
@@ -485,11 +529,9 @@ class System:
             return obj.amplitude if c is None else getattr(obj, c).amplitude
         pre = {c: np.array(arr(c), copy=True) for c in comps}
         n = len(pre[comps[0]])
-        detail = dict(hist=hist, call=f"{site}({a!r}, {b!r})", interval=label, n_samples=n,
-                      dt=(obj if comps[0] is None else obj.ns).dt_in_seconds,
-                      start_in_samples=float(RT.position(detail_dt(obj, comps), a)),
-                      end_in_samples=float(RT.position(detail_dt(obj, comps), b)),
-                      last_sample_index=n - 1)
+        dtv = (obj if comps[0] is None else obj.ns).dt_in_seconds
+        detail = dict(hist=hist, call=f"{site}({a!r}, {b!r})", interval=label, n_samples=n, dt=dtv,
+                      start_in_samples=a / dtv, end_in_samples=b / dtv, last_sample_index=n - 1)
         ctx.count("transitions")
         ctx.count("trim_calls")
         raised = None
@@ -500,7 +542,7 @@ class System:
         if exp["knife"]:
             ctx.count("knife_edge")
         if raised is not None:
-            ctx.outcome(("trim", site, label, "raised", type(raised).__name__))
+            self._outcome(ctx, ("trim", site, label, "raised", type(raised).__name__))
             unchanged = all(bitwise_equal(arr(c), pre[c]) for c in comps)
             if exp["refuse"] is False:
                 ctx.violation(f"C18:{site}:{label}:refuses-valid-range", root, detail=detail,
@@ -536,11 +578,7 @@ class System:
                               observed=dict(n_kept=len(got), first_last_index=where),
                               explanation="trim did not keep exactly the samples nearest(start)..nearest(end)")
         got = arr(comps[0])
-        ctx.outcome(("trim", site, label, "kept", len(got), n))
-
-
-def detail_dt(obj, comps):
-    return (obj if comps[0] is None else obj.ns).dt_in_seconds
+        self._outcome(ctx, ("trim", site, label, "kept", len(got), n))
 
 
 def _locate(pre, got):
@@ -594,7 +632,8 @@ def run_root(root, ctx, tier):
     tmp = tempfile.mkdtemp(prefix="hvmc-c18-")
     try:
         sysm = System(root, tmpdir=tmp)
-        seen = explorer.bfs(sysm, root, root["depth"], ctx, key_prefix="C18")
+        seen = explorer.bfs(sysm, root, root["depth"], ctx, key_prefix="C18",
+                            check_determinism=(tier == "thorough"))
         ctx.nontrivial_case((root["L"], root["dt"], root["deg"], root.get("prefix", [])))
         ctx.notes["max_history_length"] = max(ctx.notes.get("max_history_length", 0),
                                               len(root.get("prefix", [])) + root["depth"])
@@ -633,7 +672,8 @@ def describe(tier):
         bounds=dict(depth="2 quick; 3 thorough (every first operation is a root explored 2 further)",
                     menu=20, trim_intervals_judged_per_state=13),
         exhaustive=True,
-        assumptions=["metadata keys are strings and values are finite JSON numbers, strings, booleans, None, "
+        assumptions=["thorough only: every history is replayed a second time and must reach the same state",
+                     "metadata keys are strings and values are finite JSON numbers, strings, booleans, None, "
                      "lists, tuples, dicts (JSON cannot keep other keys)",
                      "independence is required of sample storage only (the statement does not speak of "
                      "metadata); nested-metadata aliasing is counted, not judged",
